@@ -20,7 +20,7 @@ def run_program(source, pos, params, vec, step_limit=STEP_LIMIT):
     def _print(*a):
         out.append(a[0] if len(a) == 1 else list(a))
 
-    g = {"__builtins__": {"print": _print, "range": range, "__build_class__": __build_class__, "__name__": "m"},
+    g = {"__builtins__": {"print": _print, "range": range, "sum": sum, "__build_class__": __build_class__, "__name__": "m"},
          "__name__": "m"}
     try:
         code = compile(source, "<c03>", "exec")
